@@ -84,6 +84,9 @@ DEFAULT_PROFILE = dict(
     ai_ws_touch_strict=True,      # a line whose whitespace an AI session changed must not be credited to that session (finding D24 when False)
     slow_path_strict_notes=True,  # assert every line listed by notes of the full rebase/cherry-pick replay (finding D16 when False: only added lines)
     reindent_committed_ai=True,   # whitespace-only edits of AI lines already contained in HEAD (finding D17)
+    reset_over_removed_lines=True,   # reset --soft/--mixed past commits (or with pending edits) that delete / replace lines (finding D58 when off)
+    restore_with_initial_pending=True,   # `git restore` of a file that carries INITIAL-only pending claims (finding D55 when off)
+    reset_path_dash_name=True,    # `git reset -- <name starting with a dash>` (finding D56 when off)
 )
 
 
@@ -169,6 +172,8 @@ class Scenario:
         """Mutate `lines` in place as `author`; returns a short description."""
         p = self.profile
         kinds = kinds or ["ins"] * 9 + ["del"] * 3 + ["rep"] * 3 + (["mod"] * 3 if p["intraline"] else []) + (["indent"] * 2 if p["reindent"] else [])
+        if getattr(self, "force_kinds", None):
+            kinds = [k for k in kinds if k in self.force_kinds] or list(self.force_kinds)
         kind = self.rng.choice(kinds) if lines else "ins"
         if kind == "ins":
             pos = self.pick_pos(lines, adjacent_to_other=author)
